@@ -30,6 +30,7 @@ AsmPath(n) == n.t = "path" /\ ~n.at /\ Len(n.fr) = 1 /\ n.fr[1].k = "c" /\ n.fr[
 Focus(p) == IF p.t = "call" /\ p.fn = "set" /\ Len(p.a) = 2 /\ AsmPath(p.a[1]) /\ p.a[2].t = "call" THEN p.a[2] ELSE p
 KindOf(n) == IF n.t = "path" THEN (IF Simple(n) THEN (IF n.at THEN "@path" ELSE "$path") ELSE "multipath") ELSE n.t
 Cell(p) == LET f == Focus(p) IN IF f.t = "call" THEN <<Canon(f.fn), [j \in 1..Len(f.a) |-> KindOf(f.a[j])]>> ELSE <<f.t, <<>>>>
+ArgClass(n) == CASE n.t = "path" -> "path" [] n.t = "call" -> "call" [] n.t = "pair" -> "pair" [] OTHER -> "literal" 
 RECURSIVE DepthOf(_)
 DepthOf(n) == CASE n.t = "call" -> 1 + (LET RECURSIVE Mx(_)
                                             Mx(j) == IF j > Len(n.a) THEN 0 ELSE Max(DepthOf(n.a[j]), Mx(j + 1)) IN Mx(1))
@@ -38,30 +39,38 @@ DepthOf(n) == CASE n.t = "call" -> 1 + (LET RECURSIVE Mx(_)
 
 Judge(e, i) ==
   LET p == e.plan
-      rs == e.runs
+      rs == [j \in 1..5 |-> IF "eq" \in DOMAIN e.runs[j] THEN e.runs[1] ELSE e.runs[j]]   \* {eq: 1} = identical to run 1
+      estr == IF "eq" \in DOMAIN e.str THEN e.runs[1] ELSE e.str
+      esimp == IF "eq" \in DOMAIN e.simp THEN e.runs[1] ELSE e.simp
       cell == Cell(p)
       E == Exec(p, e.root)
-      mk(kind, loc) == [i |-> i, kind |-> kind, loc |-> loc, cell |-> cell, depth |-> DepthOf(Focus(p))]
+      fo == Focus(p)
+      mk(kind, loc) == [i |-> i, kind |-> kind, loc |-> loc, cell |-> cell, depth |-> DepthOf(fo),
+                        arg1 |-> IF fo.t = "call" /\ Len(fo.a) >= 1 THEN ArgClass(fo.a[1]) ELSE "none"]
       \* ---- Total
       panics == {j \in 1..5 : rs[j].r \notin {"ok", "err"}}
       total == IF panics # {} THEN <<mk("panic", <<"Execute">>)>>
-               ELSE IF e.str.r = "panic" THEN <<mk("panic", <<"String">>)>>
-               ELSE IF e.simp.r = "panic" THEN <<mk("panic", <<"Simplify">>)>> ELSE <<>>
+               ELSE IF estr.r = "panic" THEN <<mk("panic", <<"String">>)>>
+               ELSE IF esimp.r = "panic" THEN <<mk("panic", <<"Simplify">>)>> ELSE <<>>
       \* ---- Deterministic
       freshSame == Same(rs[4], rs[5]) /\ Same(rs[4], rs[1])
       allSame == \A j \in 2..5 : Same(rs[j], rs[1])
       det == IF panics # {} \/ allSame THEN <<>>
+             ELSE IF HasMultiPath(p) THEN <<mk("nondeterministic", <<"multi-path", "object-order">>)>>
              ELSE IF freshSame THEN <<mk("nondeterministic", <<"reuse", IF \E j \in 1..Len(MutCalls(p)) : StoresContainer(MutCalls(p)[j])
                                                                           THEN "stored-container" ELSE "other">>)>>
-             ELSE <<mk("nondeterministic", <<"fresh", IF HasMultiPath(p) THEN "multi-path" ELSE "other">>)>>
+             ELSE <<mk("nondeterministic", <<"fresh", "other">>)>>
       \* ---- PrintRebuild (judged against a freshly built plan, only when fresh plans are deterministic)
-      feat == IF HasIntegralFloat(p) THEN "integral-float" ELSE "other"
-      prOk(x) == x.r = "skip" \/ x.r = "panic" \/ Same(x, rs[4])
-      pr == IF panics # {} \/ ~Same(rs[4], rs[5]) THEN <<>>
-            ELSE (IF prOk(e.str) THEN <<>> ELSE <<mk("print-rebuild", <<"String", feat, e.str.r>>)>>)
-                 \o (IF prOk(e.simp) THEN <<>> ELSE <<mk("print-rebuild", <<"Simplify", feat, e.simp.r>>)>>)
+      feat == IF \E j \in 1..Len(Calls(p)) : Calls(p)[j].fn \in {"+", "-"} THEN "fn-plus-minus"
+              ELSE IF HasIntegralFloat(p) THEN "integral-float" ELSE "other"
+      \* "the same behaviour": same outcome, same root' by value (int/float kinds are not part of the statement)
+      prOk(x) == x.r = "skip" \/ x.r = "panic" \/ (x.r = rs[4].r /\ (x.root = rs[4].root \/ Norm(x.root) = Norm(rs[4].root)))
+      pr == IF panics # {} \/ ~freshSame \/ HasMultiPath(p) THEN <<>>
+            ELSE (IF prOk(estr) THEN <<>> ELSE <<mk("print-rebuild", <<"String", feat, estr.r>>)>>)
+                 \o (IF prOk(esimp) THEN <<>> ELSE <<mk("print-rebuild", <<"Simplify", feat, esimp.r>>)>>)
       \* ---- SrcFrame
-      frameBad == {j \in 1..5 : rs[j].r \in {"ok", "err"} /\ Norm(SrcOf(rs[j].root)) # Norm(SrcOf(e.root))}
+      idx == {1} \cup {j \in 2..5 : "eq" \notin DOMAIN e.runs[j]}
+      frameBad == {j \in idx : rs[j].r \in {"ok", "err"} /\ Norm(SrcOf(rs[j].root)) # Norm(SrcOf(e.root))}
       fr == IF frameBad # {} /\ ~MayTouchSrc(p) THEN <<mk("frame", <<"SrcFrame">>)>> ELSE <<>>
       \* ---- Semantics (first run; runs are compared with each other above)
       sem == IF panics # {} \/ E.k = "any" THEN <<>>
@@ -75,9 +84,10 @@ TCase == /\ ci <= NT
          /\ LET e == Tr[ci]
                 j == Judge(e, ci) IN
             /\ root' = j.post /\ last' = j.k /\ steps' = 0
-            /\ (j.bad = <<>> \/ Len(TLCGet(1)) >= MaxBad \/ TLCSet(1, TLCGet(1) \o j.bad))
-            /\ (j.bad = <<>> \/ TLCSet(3, TLCGet(3) + Len(j.bad)))
-            /\ (j.k = "any" \/ TLCSet(4, TLCGet(4) \cup {j.cell}))
+            \* (side effects are written without disjunctions: TLC explores every disjunct of an action)
+            /\ TLCSet(1, TLCGet(1) \o (IF Len(TLCGet(1)) >= MaxBad THEN <<>> ELSE j.bad))
+            /\ TLCSet(3, TLCGet(3) + Len(j.bad))
+            /\ TLCSet(4, TLCGet(4) \cup (IF j.k = "any" THEN {} ELSE {j.cell}))
          /\ TLCSet(2, ci)
          /\ ci' = ci + 1
 
